@@ -78,10 +78,10 @@ def concreteCodec (m : KeyMode) (cvTab : List (Nat × Option Nat)) : Codec PKey 
 md5 digest as supplied by `hashlib` — `pickle.dumps` of `(1,)`, `'a'`, `(2, 'b')`. -/
 def mainPool : List PKey :=
   [.atom (.str "a"), .atom (.str "b"), .atom (.str "k1"), .atom (.str "x_y"), .atom (.str "K"), .atom (.str "Q 7"),
-   .atom (.str "z.z"), .atom (.str "Q7"), .atom (.str "TASK_1"), .atom (.str "K_K_a"), .atom (.str "p-q"), .atom (.str "2024-01-15"),
+   .atom (.str "z.z"), .atom (.str "Q7"), .atom (.str "TASK_1"), .atom (.str "K_K_a"), .atom (.str "k[0]"), .atom (.str "p-q"), .atom (.str "2024-01-15"),
    .atom (.str "LLLLLLLLLLLLLLLLLLLLLLLLLLLLLLLLLLLLLLLLLLLLLLLLLLLLLLLLLLLLLLLLLLLLLLLLLLLLLLLLLLLLLLLLLLLLLLLLLLLLLLLLLLLLLLLLLLLLLLLLLLLLLLLLLLLLLLLLLLLLLLLLLLLLLLLLLLLLLLLLLLLLLLLLLLLLLLLLLLLLLLLLLLLLLLLLLLLLLLLLLLLLLLLLLLLLLLLLLLLLLLLLLLLLLLLLLLLLLLLLLLLLLa"), .atom (.str "LLLLLLLLLLLLLLLLLLLLLLLLLLLLLLLLLLLLLLLLLLLLLLLLLLLLLLLLLLLLLLLLLLLLLLLLLLLLLLLLLLLLLLLLLLLLLLLLLLLLLLLLLLLLLLLLLLLLLLLLLLLLLLLLLLLLLLLLLLLLLLLLLLLLLLLLLLLLLLLLLLLLLLLLLLLLLLLLLLLLLLLLLLLLLLLLLLLLLLLLLLLLLLLLLLLLLLLLLLLLLLLLLLLLLLLLLLLLLLLLLLLLLb"),
    .atom (.int 7), .atom (.int 12), .atom (.int (-3)), .atom (.int 0),
-   .tup [.int 1, .int 2], .tup [.str "a", .int 3], .tup [.int 5], .tup [], .tup [.str "x", .str "y"],
+   .tup [.int 1, .int 2], .tup [.str "a", .int 3], .tup [.int 5], .tup [], .tup [.str "x", .str "y"], .tup [.str "x[1]", .int 2],
    .atom (.bytes "80049505000000000000004b0185942e" "d800a4634ec418740f36ec222e805788"),
    .atom (.bytes "80049505000000000000008c0161942e" "d578e3b878268b39463a4a4a482457d3"),
    .atom (.bytes "80049509000000000000004b028c01629486942e" "aee327ddddaa1390787f94ace19882fe")]
